@@ -170,13 +170,15 @@ PROPS['C15'] = {
     'theorems': ['Yabgp.C15_ipv4_prefixes', 'Yabgp.C15_ipv4_prefixes_concat', 'Yabgp.C15_ipv4_prefixes_own',
                  'Yabgp.C15_communities', 'Yabgp.C15_cluster_list', 'Yabgp.C15_large_communities',
                  'Yabgp.C15_aspath_segments', 'Yabgp.C15_open_capabilities', 'Yabgp.C15_open_parameters',
-                 'Yabgp.C15_unknown_capability', 'Yabgp.C15_attr_perm', 'Yabgp.C15_unknown_attr_inserted'],
+                 'Yabgp.C15_unknown_capability', 'Yabgp.C15_attr_perm', 'Yabgp.C15_unknown_attr_inserted',
+                 'Yabgp.Mp.C15_ipv6_prefixes', 'Yabgp.Mp.C15_labeled', 'Yabgp.Mp.C15_vpn',
+                 'Yabgp.Mp.C15_ipv6_prefixes_concat', 'Yabgp.Mp.C15_labeled_concat', 'Yabgp.Mp.C15_vpn_concat'],
     'genagree': ['Yabgp.GenAgree.attr_codes', 'Yabgp.GenAgree.attr_ids', 'Yabgp.GenAgree.capability_codes'],
-    'suites': ['compose', 'refupdate'],
+    'suites': ['compose', 'refupdate', 'mpnlri'],
     'cannot': 'PARTIAL: proved for IPv4 prefix lists, communities, cluster lists, large communities, AS_PATH/AS4_PATH segments, '
               'OPEN capabilities / optional parameters (for arbitrary capability TLVs), path-attribute order and unknown-attribute '
-              'insertion; the multiprotocol list kinds (IPv6, labeled, VPN, EVPN, flowspec), extended communities and the BGP-LS / '
-              'Prefix-SID TLV containers are not in this check yet',
+              'insertion, IPv6 prefix lists (except the recorded 00 00 finding), labeled and VPN route lists; EVPN, flowspec, extended '
+              'communities and the BGP-LS / Prefix-SID TLV containers are not in this check yet',
 }
 
 PROPS['C11'] = {
@@ -257,6 +259,26 @@ PROPS['C02'] = {
                   'Established session stays up under KEEPALIVE traffic. Tie: lockstep differential runs of model and real '
                   'BGPPeering/FSM/BGP over adversarial prefixes (BFS + random) followed by a cooperative continuation; oracle on the '
                   'implementation: never stuck, Established within idle_hold + slack, still up 3 hold times later, same OPEN.',
+}
+
+PROPS['C07'] = {
+    'module': 'Yabgp.Props.C07a',
+    'theorems': ['Yabgp.Mp.C07_reach_roundtrip', 'Yabgp.Mp.C07_unreach_roundtrip',
+                 'Yabgp.Mp.C07_ipv6_unicast_reach', 'Yabgp.Mp.C07_ipv6_unicast_unreach',
+                 'Yabgp.Mp.C07_labeled_reach', 'Yabgp.Mp.C07_vpn_reach', 'Yabgp.Mp.C07_vpn_unreach',
+                 'Yabgp.Mp.C07_ipv6_unicast_nlri', 'Yabgp.Mp.C07_labeled_nlri', 'Yabgp.Mp.C07_vpn_nlri',
+                 'Yabgp.Mp.C07_wrapper_header', 'Yabgp.Mp.C07_rd_types', 'Yabgp.Mp.C07_generated_constants',
+                 'Yabgp.Mp.U6Safe_nil_iff', 'Yabgp.Mp.LuOk_iff_space',
+                 'Yabgp.Mp.KF_C07_ipv6_two_default_routes', 'Yabgp.Mp.KF_C07_ipv6_unicast_full_false',
+                 'Yabgp.Mp.KF_C07_labeled_last_label_zero', 'Yabgp.Mp.KF_C07_labeled_full_false',
+                 'Yabgp.Mp.KF_C07_labeled_unreach_not_decoded', 'Yabgp.Mp.KF_C07_labeled_unreach_constructed'],
+    'genagree': ['Yabgp.GenAgree.attr_codes', 'Yabgp.GenAgree.attr_flags', 'Yabgp.GenAgree.update_errors'],
+    'suites': ['mpnlri'],
+    'cannot': 'netaddr text <-> integer conversion and the a:b RD text are handled by the canonicaliser (harness/impl_mp.py), '
+              'not modelled; AFI/SAFI numbers are tied by the correspondence check only; add-path is modelled on the decode '
+              'side but is outside the round trip (the constructors cannot encode a path id); PARTIAL by three recorded known '
+              'findings (IPv6 unicast two trailing ::/0, labeled unicast last label 0, labeled unicast MP_UNREACH not decoded); '
+              'EVPN and flowspec: second half of this check (Props/C07b), pending',
 }
 
 # properties not claimed yet, with the reason that goes into MANIFEST.not_applicable
